@@ -54,8 +54,8 @@ func (w Resolver) Resolve(id did.DID, _ *resolver.ResolveMetadata) (*did.Documen
 	// Get the third section of the did, e.g. "did:jwk:..."
 	b64EncodedJWK := id.ID
 
-	// Decode the base64 to JWK
-	encodedJWK, err := base64.RawStdEncoding.DecodeString(b64EncodedJWK)
+	// Decode the base64url (did:jwk uses the URL-safe alphabet, without padding) to JWK
+	encodedJWK, err := base64.RawURLEncoding.DecodeString(b64EncodedJWK)
 	if err != nil {
 		return nil, nil, fmt.Errorf("failed to decode base64 (%v): %w", b64EncodedJWK, err)
 	}
